@@ -1,5 +1,6 @@
 import Starcal.Rules
 import Starcal.TextMore2
+import Starcal.IvalText2
 /-! # C08 — rule validation is exact: accepted iff every written field is in its range
 
 Statements at the level of `EventRuleModel.Decode` + `EventRule.Check` over the regenerated
@@ -144,5 +145,515 @@ example : decode "dayTime" "20:55:256".toList = .ok (.hms ⟨20, 55, 255⟩) ∧
 example : decode "date" "2000/268/1".toList = .ok (.date ⟨2000, 255, 1⟩) ∧ check "date" (.date ⟨2000, 255, 1⟩) = .ok false := by decide
 example : decode "cycleLen" "-1 23:55:55".toList = .err := by decide
 example : decode "date" "2000-1-1".toList = .err ∧ decode "duration" "1d".toList = .err := by decide
+
+/-! ## Composed statements for further rule types (decoder ∘ checker on written values) -/
+
+/-- `start` / `end`: "y/m/d h:m:s" with any integer fields -/
+theorem C08_start_end_exact (t : String) (ht : t = "start" ∨ t = "end") (y m d h mi s : Int) :
+    ∃ dv hv, decode t (fmtDate y m d ++ (' ' :: fmtHMS h mi s)) = .ok (.dateHMS dv hv) ∧
+      (check t (.dateHMS dv hv) = .ok true ↔
+        (1 ≤ m ∧ m ≤ 12 ∧ 1 ≤ d ∧ d ≤ 39 ∧ 0 ≤ h ∧ h < 24 ∧ 0 ≤ mi ∧ mi < 60 ∧ 0 ≤ s ∧ s < 60)) ∧
+      (check t (.dateHMS dv hv) = .ok true → dv = ⟨y, m, d⟩ ∧ hv = ⟨h, mi, s⟩) := by
+  obtain ⟨dv, hv, hp, hiff, heq⟩ := parseDateHMS_exact y m d h mi s
+  rcases ht with rfl | rfl
+  · obtain ⟨hd, hck⟩ := decode_eq "start" "DateHMS" true (by decide)
+    refine ⟨dv, hv, by rw [hd]; simp [decodeWith, ofOpt, hp], ?_, ?_⟩
+    · rw [hck]; simp only [checkWith, if_true, Chk.ok.injEq]; exact hiff
+    · rw [hck]; simp only [checkWith, if_true, Chk.ok.injEq]; exact heq
+  · obtain ⟨hd, hck⟩ := decode_eq "end" "DateHMS" true (by decide)
+    refine ⟨dv, hv, by rw [hd]; simp [decodeWith, ofOpt, hp], ?_, ?_⟩
+    · rw [hck]; simp only [checkWith, if_true, Chk.ok.injEq]; exact hiff
+    · rw [hck]; simp only [checkWith, if_true, Chk.ok.injEq]; exact heq
+
+/-- `dayTimeRange`: "h:m:s h:m:s" with any integer fields -/
+theorem C08_dayTimeRange_exact (h1 m1 s1 h2 m2 s2 : Int) :
+    ∃ a b, decode "dayTimeRange" (fmtHMS h1 m1 s1 ++ (' ' :: fmtHMS h2 m2 s2)) = .ok (.hmsRange a b) ∧
+      (check "dayTimeRange" (.hmsRange a b) = .ok true ↔
+        (0 ≤ h1 ∧ h1 < 24 ∧ 0 ≤ m1 ∧ m1 < 60 ∧ 0 ≤ s1 ∧ s1 < 60 ∧ 0 ≤ h2 ∧ h2 < 24 ∧ 0 ≤ m2 ∧ m2 < 60 ∧ 0 ≤ s2 ∧ s2 < 60)) ∧
+      (check "dayTimeRange" (.hmsRange a b) = .ok true → a = ⟨h1, m1, s1⟩ ∧ b = ⟨h2, m2, s2⟩) := by
+  obtain ⟨a, b, hp, hiff, heq⟩ := parseHMSRange_exact h1 m1 s1 h2 m2 s2
+  obtain ⟨hd, hck⟩ := decode_eq "dayTimeRange" "HMSRange" true (by decide)
+  refine ⟨a, b, by rw [hd]; simp [decodeWith, ofOpt, hp], ?_, ?_⟩
+  · rw [hck]; simp only [checkWith, if_true, Chk.ok.injEq]; exact hiff
+  · rw [hck]; simp only [checkWith, if_true, Chk.ok.injEq]; exact heq
+
+theorem parseIntParts_show (l : List Int) : parseIntParts (l.map showInt) = some l := by
+  induction l with
+  | nil => rfl
+  | cons x xs ih => simp [parseIntParts, parseInt_showInt, ih]
+
+/-- `weekDay`: a written list of integers decodes to exactly that list and is accepted iff every one is in 0..6 -/
+theorem C08_weekDay_exact (l : List Int) (hne : l ≠ []) :
+    decode "weekDay" (joinSp (l.map showInt)) = .ok (.intList l) ∧
+    (check "weekDay" (.intList l) = .ok true ↔ ∀ v ∈ l, 0 ≤ v ∧ v ≤ 6) := by
+  obtain ⟨hd, hck⟩ := decode_eq "weekDay" "int_list" true (by decide)
+  have hs : splitOn ' ' (joinSp (l.map showInt)) = l.map showInt := by
+    apply splitOn_joinSp _ (by simpa using hne)
+    intro p hp
+    obtain ⟨i, _, rfl⟩ := List.mem_map.mp hp
+    exact showInt_no_space i
+  constructor
+  · rw [hd]; simp [decodeWith, ofOpt, parseIntList, hs, parseIntParts_show]
+  · rw [hck]
+    simp only [checkWith, if_true, Chk.ok.injEq, List.all_eq_true, Bool.and_eq_true, decide_eq_true_eq]
+    constructor
+    · intro h v hv; have := h v hv; omega
+    · intro h v hv; have := h v hv; omega
+
+/-- a written date as the triple of its fields -/
+def fmtDateT (t : Int × Int × Int) : List Char := fmtDate t.1 t.2.1 t.2.2
+def decodedDate (t : Int × Int × Int) : DateV := ⟨t.1, narrowNew t.2.1, narrowNew t.2.2⟩
+def dateInRange (t : Int × Int × Int) : Prop := 1 ≤ t.2.1 ∧ t.2.1 ≤ 12 ∧ 1 ≤ t.2.2 ∧ t.2.2 ≤ 39
+
+theorem parseDate_fmt (t : Int × Int × Int) :
+    parseDate narrowNew (fmtDateT t) = some (decodedDate t) ∧
+    ((decodedDate t).isValid = true ↔ dateInRange t) ∧ ((decodedDate t).isValid = true → decodedDate t = ⟨t.1, t.2.1, t.2.2⟩) := by
+  obtain ⟨v, h1, h2, h3⟩ := parseDate_exact t.1 t.2.1 t.2.2
+  have hv : v = decodedDate t := by
+    unfold parseDate at h1
+    have hf : ∀ i, ∀ x ∈ showInt i, x ≠ '/' := fun i => showInt_free i '/' (by decide) (by decide)
+    have hsplit : splitOn '/' (fmtDate t.1 t.2.1 t.2.2) = [showInt t.1, showInt t.2.1, showInt t.2.2] := by
+      unfold fmtDate
+      rw [splitOn_append '/' _ _ (hf _), splitOn_append '/' _ _ (hf _), splitOn_free '/' _ (hf _)]
+    simp [hsplit, parseInt_showInt] at h1
+    exact h1.symm
+  subst hv
+  exact ⟨h1, h2, h3⟩
+
+theorem parseDateParts_fmt (l : List (Int × Int × Int)) :
+    parseDateParts (l.map fmtDateT) = some (l.map decodedDate) := by
+  induction l with
+  | nil => rfl
+  | cons x xs ih => simp [parseDateParts, (parseDate_fmt x).1, ih]
+
+/-- `ex_dates`: a written list of dates decodes date by date and is accepted iff every date is in range,
+    in which case the decoded dates are exactly the written ones -/
+theorem C08_ex_dates_exact (l : List (Int × Int × Int)) (hne : l ≠ []) :
+    decode "ex_dates" (joinSp (l.map fmtDateT)) = .ok (.dateList (l.map decodedDate)) ∧
+    (check "ex_dates" (.dateList (l.map decodedDate)) = .ok true ↔ ∀ t ∈ l, dateInRange t) ∧
+    (check "ex_dates" (.dateList (l.map decodedDate)) = .ok true →
+      l.map decodedDate = l.map (fun t => ⟨t.1, t.2.1, t.2.2⟩)) := by
+  obtain ⟨hd, hck⟩ := decode_eq "ex_dates" "Date_list" true (by decide)
+  have hs : splitOn ' ' (joinSp (l.map fmtDateT)) = l.map fmtDateT := by
+    apply splitOn_joinSp _ (by simpa using hne)
+    intro p hp
+    obtain ⟨t, _, rfl⟩ := List.mem_map.mp hp
+    exact fmtDate_no_space _ _ _
+  have hall : (check "ex_dates" (.dateList (l.map decodedDate)) = .ok true) ↔ ∀ t ∈ l, (decodedDate t).isValid = true := by
+    rw [hck]
+    simp [checkWith, List.all_eq_true]
+  refine ⟨by rw [hd]; simp [decodeWith, ofOpt, parseDateList, hs, parseDateParts_fmt], ?_, ?_⟩
+  · rw [hall]
+    constructor
+    · intro h t ht; exact (parseDate_fmt t).2.1.mp (h t ht)
+    · intro h t ht; exact (parseDate_fmt t).2.1.mpr (h t ht)
+  · rw [hall]
+    intro h
+    apply List.map_congr_left
+    intro t ht
+    exact (parseDate_fmt t).2.2 (h t ht)
+
+
+/-- `weekNumMode`: every text decodes to itself; accepted iff it is one of the three words -/
+theorem C08_weekNumMode_exact (s : List Char) :
+    decode "weekNumMode" s = .ok (.str s) ∧
+    (check "weekNumMode" (.str s) = .ok true ↔ (s = "odd".toList ∨ s = "even".toList ∨ s = "any".toList)) := by
+  obtain ⟨hd, hck⟩ := decode_eq "weekNumMode" "string" true (by decide)
+  refine ⟨by rw [hd]; simp [decodeWith], ?_⟩
+  rw [hck]
+  simp only [checkWith, if_true, Chk.ok.injEq, Bool.or_eq_true, beq_iff_eq]
+  constructor
+  · rintro ((h | h) | h)
+    · exact Or.inl h
+    · exact Or.inr (Or.inl h)
+    · exact Or.inr (Or.inr h)
+  · rintro (h | h | h)
+    · exact Or.inl (Or.inl h)
+    · exact Or.inl (Or.inr h)
+    · exact Or.inr h
+
+theorem allDigits_showNat (n : Nat) : allDigits (showNat n) = true := by
+  unfold allDigits
+  rw [List.all_eq_true]
+  intro c hc
+  have := (showNat_digits n).1 c hc
+  simp only [isDigit, Bool.and_eq_true, decide_eq_true_eq] at this
+  simp only [Char.isDigit, Bool.and_eq_true, decide_eq_true_eq]
+  constructor
+  · show (48 : UInt32) ≤ c.val
+    have h1 : c.toNat = c.val.toNat := rfl
+    rw [UInt32.le_iff_toNat_le]; simp; omega
+  · show c.val ≤ (57 : UInt32)
+    have h1 : c.toNat = c.val.toNat := rfl
+    rw [UInt32.le_iff_toNat_le]; simp; omega
+
+theorem showNat_no_dot (n : Nat) : ∀ x ∈ showNat n, x ≠ '.' := by
+  intro x hx h
+  have := (showNat_digits n).1 x hx
+  subst h
+  simp [isDigit] at this
+
+theorem parseDecimalBody_showNat (n : Nat) : parseDecimalBody (showNat n) = some (n, 1) := by
+  unfold parseDecimalBody
+  rw [splitOn_free '.' _ (showNat_no_dot n)]
+  have hne : (showNat n).isEmpty = false := by
+    have := (showNat_digits n).2
+    cases h : showNat n with
+    | nil => exact absurd h this
+    | cons _ _ => rfl
+  simp [hne, allDigits_showNat, parseNat_showNat]
+
+/-- the unit words -/
+def unitWords : List (List Char × Int) := [(['s'], 1), (['m'], 60), (['h'], 3600), (['d'], 86400), (['w'], 604800)]
+
+theorem unit_no_space (u : List Char) (sec : Int) (h : (u, sec) ∈ unitWords) :
+    (∀ x ∈ u, x ≠ ' ') ∧ unitSeconds u = some sec := by
+  simp only [unitWords, List.mem_cons, Prod.mk.injEq, List.not_mem_nil, or_false] at h
+  rcases h with ⟨rfl, rfl⟩ | ⟨rfl, rfl⟩ | ⟨rfl, rfl⟩ | ⟨rfl, rfl⟩ | ⟨rfl, rfl⟩ <;> exact ⟨by decide, by decide⟩
+
+/-- `duration`: a whole number of units, written with an optional sign, decodes to exactly that
+    number and unit; it is accepted iff it is not negative (−0 counts as 0) -/
+theorem C08_duration_exact (neg : Bool) (n : Nat) (u : List Char) (sec : Int) (hu : (u, sec) ∈ unitWords) :
+    decode "duration" ((if neg then ['-'] else []) ++ showNat n ++ (' ' :: u)) = .ok (.duration ⟨neg, n, 1, u, sec⟩) ∧
+    (check "duration" (.duration ⟨neg, n, 1, u, sec⟩) = .ok true ↔ (neg = false ∨ n = 0)) := by
+  obtain ⟨hd, hck⟩ := decode_eq "duration" "Duration" true (by decide)
+  obtain ⟨hfree, hsec⟩ := unit_no_space u sec hu
+  constructor
+  · rw [hd]
+    have hnum : ∀ x ∈ (if neg then ['-'] else []) ++ showNat n, x ≠ ' ' := by
+      intro x hx
+      rcases List.mem_append.mp hx with h | h
+      · cases neg <;> simp at h; subst h; decide
+      · exact showNat_no_space n x h
+    have hs : splitOn ' ' ((if neg then ['-'] else []) ++ showNat n ++ (' ' :: u)) = [(if neg then ['-'] else []) ++ showNat n, u] := by
+      rw [splitOn_append ' ' _ _ hnum, splitOn_free ' ' u hfree]
+    have hdec : parseDecimal ((if neg then ['-'] else []) ++ showNat n) = some (neg, n, 1) := by
+      cases neg with
+      | true => simp [parseDecimal, parseDecimalBody_showNat]
+      | false =>
+        obtain ⟨c, cs, e, _, hc⟩ := showNat_shape n
+        have h1 : c ≠ '-' := by intro h; subst h; simp [isDigit] at hc
+        have h2 : c ≠ '+' := by intro h; subst h; simp [isDigit] at hc
+        simp only [Bool.false_eq_true, if_false, List.nil_append]
+        unfold parseDecimal
+        rw [e]
+        split
+        · rename_i heq; simp at heq; exact absurd heq.1 h1
+        · rename_i heq; simp at heq; exact absurd heq.1 h2
+        · rw [← e, parseDecimalBody_showNat]; rfl
+    have hs' : splitOn ' ' ((if neg then ['-'] else []) ++ (showNat n ++ (' ' :: u))) = [(if neg then ['-'] else []) ++ showNat n, u] := by
+      rw [← List.append_assoc]; exact hs
+    simp [decodeWith, ofOpt, parseDuration, hs', hdec, hsec]
+  · rw [hck]
+    simp only [checkWith, if_true, Chk.ok.injEq, DurationV.isValid, Bool.or_eq_true, Bool.not_eq_true', beq_iff_eq]
+
+
+/-- the four checked range-list types and their bounds -/
+def rangeBounds : List (String × Int × Int) := [("month", 1, 12), ("ex_month", 1, 12), ("day", 1, 39), ("ex_day", 1, 39)]
+
+theorem decodeRanges_value (s : List Char) (l : List Starcal.Ival)
+    (hp : parseClosedIntervalList s = .ok l) (hcl : ∀ i ∈ l, i.closed = true ∧ i.start ≤ i.stop) :
+    ∃ vals, decodeWith "int_range_list" s = .ok (.intList vals) ∧ Ival.StrictInc vals ∧
+      (∀ x, x ∈ vals ↔ ∃ i ∈ l, i.start ≤ x ∧ x ≤ i.stop) := by
+  have hcl' : ∀ i ∈ l.map toIv, i.closed = true ∧ i.start ≤ i.stop := by
+    intro i hi
+    obtain ⟨j, hj, rfl⟩ := List.mem_map.mp hi
+    exact hcl j hj
+  obtain ⟨r, hr, hinc, hmem⟩ := Ival.ranges_value (l.map toIv) hcl'
+  refine ⟨Ival.extractI r, by simp [decodeWith, decodeRanges, hp, hr], hinc, ?_⟩
+  intro x
+  rw [hmem x]
+  constructor
+  · rintro ⟨i, hi, h1, h2⟩
+    obtain ⟨j, hj, rfl⟩ := List.mem_map.mp hi
+    exact ⟨j, hj, h1, h2⟩
+  · rintro ⟨j, hj, h1, h2⟩
+    exact ⟨toIv j, List.mem_map_of_mem hj, h1, h2⟩
+
+/-- all six range-list rule types: whenever the text parses as closed ranges, the decoded value is
+    the strictly increasing list of exactly the covered integers; `month`/`ex_month` accept it iff all
+    are in 1..12, `day`/`ex_day` iff all are in 1..39, `year`/`ex_year` always -/
+theorem C08_range_types (s : List Char) (l : List Starcal.Ival)
+    (hp : parseClosedIntervalList s = .ok l) (hcl : ∀ i ∈ l, i.closed = true ∧ i.start ≤ i.stop) :
+    ∃ vals, Ival.StrictInc vals ∧ (∀ x, x ∈ vals ↔ ∃ i ∈ l, i.start ≤ x ∧ x ≤ i.stop) ∧
+      (∀ t lo hi, (t, lo, hi) ∈ rangeBounds →
+        decode t s = .ok (.intList vals) ∧ (check t (.intList vals) = .ok true ↔ ∀ x ∈ vals, lo ≤ x ∧ x ≤ hi)) ∧
+      (∀ t, t = "year" ∨ t = "ex_year" → decode t s = .ok (.intList vals) ∧ check t (.intList vals) = .ok true) := by
+  obtain ⟨vals, hd, hinc, hmem⟩ := decodeRanges_value s l hp hcl
+  refine ⟨vals, hinc, hmem, ?_, ?_⟩
+  · intro t lo hi ht
+    simp only [rangeBounds, List.mem_cons, Prod.mk.injEq, List.not_mem_nil, or_false] at ht
+    rcases ht with ⟨rfl, rfl, rfl⟩ | ⟨rfl, rfl, rfl⟩ | ⟨rfl, rfl, rfl⟩ | ⟨rfl, rfl, rfl⟩
+    all_goals
+      first
+      | (obtain ⟨hdd, hck⟩ := decode_eq "month" "int_range_list" true (by decide)
+         refine ⟨by rw [hdd]; exact hd, ?_⟩
+         rw [hck]
+         simp only [checkWith, if_true, Chk.ok.injEq, List.all_eq_true, Bool.and_eq_true, decide_eq_true_eq]
+         constructor
+         · intro h x hx; have := h x hx; omega
+         · intro h x hx; have := h x hx; omega)
+      | (obtain ⟨hdd, hck⟩ := decode_eq "ex_month" "int_range_list" true (by decide)
+         refine ⟨by rw [hdd]; exact hd, ?_⟩
+         rw [hck]
+         simp only [checkWith, if_true, Chk.ok.injEq, List.all_eq_true, Bool.and_eq_true, decide_eq_true_eq]
+         constructor
+         · intro h x hx; have := h x hx; omega
+         · intro h x hx; have := h x hx; omega)
+      | (obtain ⟨hdd, hck⟩ := decode_eq "day" "int_range_list" true (by decide)
+         refine ⟨by rw [hdd]; exact hd, ?_⟩
+         rw [hck]
+         simp only [checkWith, if_true, Chk.ok.injEq, List.all_eq_true, Bool.and_eq_true, decide_eq_true_eq]
+         constructor
+         · intro h x hx; have := h x hx; omega
+         · intro h x hx; have := h x hx; omega)
+      | (obtain ⟨hdd, hck⟩ := decode_eq "ex_day" "int_range_list" true (by decide)
+         refine ⟨by rw [hdd]; exact hd, ?_⟩
+         rw [hck]
+         simp only [checkWith, if_true, Chk.ok.injEq, List.all_eq_true, Bool.and_eq_true, decide_eq_true_eq]
+         constructor
+         · intro h x hx; have := h x hx; omega
+         · intro h x hx; have := h x hx; omega)
+  · intro t ht
+    rcases ht with rfl | rfl
+    · obtain ⟨hdd, hck⟩ := decode_eq "year" "int_range_list" false (by decide)
+      exact ⟨by rw [hdd]; exact hd, by rw [hck]; simp⟩
+    · obtain ⟨hdd, hck⟩ := decode_eq "ex_year" "int_range_list" false (by decide)
+      exact ⟨by rw [hdd]; exact hd, by rw [hck]; simp⟩
+
+section WeekMonth
+open Starcal.WM
+set_option maxRecDepth 4000
+theorem showNatAux_head (fuel n : Nat) (acc : List Char) (hf : n < fuel) (hn : 0 < n) :
+    ∃ d r, showNatAux fuel n acc = digitChar d :: r ∧ 1 ≤ d ∧ d < 10 := by
+  induction fuel generalizing n acc with
+  | zero => omega
+  | succ fuel ih =>
+    unfold showNatAux
+    split
+    · exact ⟨n, acc, rfl, hn, by omega⟩
+    · exact ih (n / 10) _ (by omega) (by omega)
+
+theorem showNatAux_len (fuel n : Nat) (acc : List Char) (k : Nat) (hf : n < fuel) (h : n < 10 ^ (k + 1)) :
+    (showNatAux fuel n acc).length ≤ k + 1 + acc.length := by
+  induction fuel generalizing n acc k with
+  | zero => omega
+  | succ fuel ih =>
+    unfold showNatAux
+    split
+    · simp; omega
+    · rename_i h10
+      cases k with
+      | zero => simp at h; omega
+      | succ k =>
+        have : n / 10 < 10 ^ (k + 1) := by
+          rw [Nat.pow_succ] at h
+          omega
+        have := ih (n / 10) (digitChar (n % 10) :: acc) k (by omega) this
+        simp at this ⊢; omega
+
+theorem showNat_len18 (n : Nat) (h : n < 10 ^ 18) : (showNat n).length ≤ 18 := by
+  have := showNatAux_len (n + 1) n [] 17 (by omega) h
+  simpa [showNat] using this
+
+theorem showNat_head (n : Nat) (hn : 0 < n) : ∃ d r, showNat n = digitChar d :: r ∧ 1 ≤ d ∧ d < 10 :=
+  showNatAux_head (n + 1) n [] (by omega) hn
+
+theorem core_isDigit (c : Char) : c.isDigit = isDigit c := by
+  simp only [Char.isDigit, isDigit]
+  have h1 : c.toNat = c.val.toNat := rfl
+  rw [h1]
+  by_cases a : (48 : UInt32) ≤ c.val <;> by_cases b : c.val ≤ (57 : UInt32) <;>
+    simp [a, b] <;> (rw [UInt32.le_iff_toNat_le] at a b; simp at a b; omega)
+
+theorem takeDigits_append (ds rest : List Char) (hd : ∀ c ∈ ds, isDigit c = true)
+    (hr : ∀ c r, rest = c :: r → isDigit c = false) : takeDigits (ds ++ rest) = (ds, rest) := by
+  induction ds with
+  | nil =>
+    cases rest with
+    | nil => rfl
+    | cons c r => simp [takeDigits, core_isDigit, hr c r rfl]
+  | cons d ds ih =>
+    simp [takeDigits, core_isDigit, hd d (by simp), ih (fun c hc => hd c (List.mem_cons_of_mem _ hc))]
+
+
+theorem digitChar_ne_zero (d : Nat) (h1 : 1 ≤ d) (h2 : d < 10) : digitChar d ≠ '0' := by
+  have : d = 1 ∨ d = 2 ∨ d = 3 ∨ d = 4 ∨ d = 5 ∨ d = 6 ∨ d = 7 ∨ d = 8 ∨ d = 9 := by omega
+  rcases this with h|h|h|h|h|h|h|h|h <;> subst h <;> decide
+
+def takeIntBody (neg : Bool) (r : List Char) : Option (Int × List Char) :=
+  let (ds, rest) := takeDigits r
+  if ds.isEmpty || ds.length > 18 || (ds.length > 1 && ds.head? == some '0') then none
+  else match rest with
+    | '.' :: _ => none
+    | 'e' :: _ => none
+    | 'E' :: _ => none
+    | _ => (parseNat ds).map (fun n => ((if neg then -(n : Int) else (n : Int)), rest))
+
+theorem takeInt_signed (r : List Char) : takeInt ('-' :: r) = takeIntBody true r := rfl
+
+theorem takeInt_unsigned (s : List Char) (h : ∀ r, s ≠ '-' :: r) : takeInt s = takeIntBody false s := by
+  unfold takeInt
+  split
+  · rename_i heq
+    split at heq
+    · exact absurd rfl (h _)
+    · simp only [Prod.mk.injEq] at heq; obtain ⟨rfl, rfl⟩ := heq; rfl
+
+theorem takeIntBody_nat (neg : Bool) (n : Nat) (rest : List Char) (hn : n < 10 ^ 18)
+    (hr : ∀ c r, rest = c :: r → isDigit c = false ∧ c ≠ '.' ∧ c ≠ 'e' ∧ c ≠ 'E') :
+    takeIntBody neg (showNat n ++ rest) = some ((if neg then -(n : Int) else (n : Int)), rest) := by
+  have hds := (showNat_digits n).1
+  have hne := (showNat_digits n).2
+  have htd : takeDigits (showNat n ++ rest) = (showNat n, rest) :=
+    takeDigits_append _ _ hds (fun c r e => (hr c r e).1)
+  have hlen := showNat_len18 n hn
+  have hlead : ((showNat n).length > 1 && (showNat n).head? == some '0') = false := by
+    by_cases h0 : n = 0
+    · subst h0; decide
+    · obtain ⟨d, r, e, h1, h2⟩ := showNat_head n (by omega)
+      rw [e]
+      have := digitChar_ne_zero d h1 h2
+      simp [this]
+  have hemp : (showNat n).isEmpty = false := by
+    cases h : showNat n with
+    | nil => exact absurd h hne
+    | cons _ _ => rfl
+  have hgt : decide ((showNat n).length > 18) = false := by simp; omega
+  unfold takeIntBody
+  simp only [htd, hemp, hgt, hlead, Bool.or_self, Bool.false_eq_true, if_false]
+  cases rest with
+  | nil => simp [parseNat_showNat]
+  | cons c r =>
+    obtain ⟨_, h1, h2, h3⟩ := hr c r rfl
+    split
+    · rename_i heq; simp only [List.cons.injEq] at heq; exact absurd heq.1 h1
+    · rename_i heq; simp only [List.cons.injEq] at heq; exact absurd heq.1 h2
+    · rename_i heq; simp only [List.cons.injEq] at heq; exact absurd heq.1 h3
+    · simp [parseNat_showNat]
+
+/-- a written integer of at most 18 digits followed by something that cannot continue a number -/
+theorem takeInt_showInt (v : Int) (rest : List Char) (hv : -(10 : Int) ^ 18 < v ∧ v < 10 ^ 18)
+    (hr : ∀ c r, rest = c :: r → isDigit c = false ∧ c ≠ '.' ∧ c ≠ 'e' ∧ c ≠ 'E') :
+    takeInt (showInt v ++ rest) = some (v, rest) := by
+  unfold showInt
+  split
+  · rename_i hneg
+    rw [List.cons_append, takeInt_signed, takeIntBody_nat true _ rest (by omega) hr]
+    simp only [if_true]
+    congr 2; omega
+  · rename_i hpos
+    obtain ⟨c, cs, e, _, hc⟩ := showNat_shape v.toNat
+    have hc' : c ≠ '-' := by intro h; subst h; simp [isDigit] at hc
+    rw [takeInt_unsigned _ (by intro r h; rw [e] at h; simp only [List.cons_append, List.cons.injEq] at h; exact hc' h.1),
+      takeIntBody_nat false _ rest (by omega) hr]
+    simp only [Bool.false_eq_true, if_false]
+    congr 2; omega
+
+
+theorem takeString_key (k : List Char) (hk : k ∈ keys) (r : List Char) : takeString (k ++ '"' :: r) = some (k, r) := by
+  simp only [keys, List.mem_cons, List.not_mem_nil, or_false] at hk
+  rcases hk with rfl | rfl | rfl <;> simp [takeString]
+
+def upd (acc : Acc) (k : List Char) (v : Int) : Acc :=
+  if k == "weekIndex".toList then { acc with wi := v }
+  else if k == "weekDay".toList then { acc with wd := v }
+  else if k == "month".toList then { acc with m := v }
+  else acc
+
+def Small (v : Int) : Prop := -(10 : Int) ^ 18 < v ∧ v < 10 ^ 18
+
+theorem skipWs_showInt (v : Int) (rest : List Char) : skipWs (showInt v ++ rest) = showInt v ++ rest := by
+  obtain ⟨c, cs, e, _, hc⟩ := showInt_shape v
+  rw [e]
+  rcases hc with rfl | hc
+  · simp [skipWs, isWs]
+  · have : isWs c = false := by
+      simp only [isWs, Bool.or_eq_false_iff, beq_eq_false_iff_ne]
+      refine ⟨⟨⟨?_, ?_⟩, ?_⟩, ?_⟩ <;> (intro h; subst h; simp [isDigit] at hc)
+    simp [skipWs, this]
+
+theorem skipWs_colon (r : List Char) : skipWs (':' :: r) = ':' :: r := by simp [skipWs, isWs]
+theorem skipWs_comma (r : List Char) : skipWs (',' :: r) = ',' :: r := by simp [skipWs, isWs]
+theorem skipWs_brace (r : List Char) : skipWs ('}' :: r) = '}' :: r := by simp [skipWs, isWs]
+theorem skipWs_quote (r : List Char) : skipWs ('"' :: r) = '"' :: r := by simp [skipWs, isWs]
+theorem skipWs_space (r : List Char) : skipWs (' ' :: r) = skipWs r := by simp [skipWs, isWs]
+theorem skipWs_nil : skipWs [] = [] := rfl
+
+/-- one member `"key": value` followed by a comma and another member -/
+theorem members_mid (fuel : Nat) (acc : Acc) (pre k : List Char) (hpre : pre = [] ∨ pre = [' ']) (hk : k ∈ keys)
+    (v : Int) (hv : Small v) (rest : List Char) :
+    members (fuel + 1) acc (pre ++ ('"' :: (k ++ ('"' :: ':' :: ' ' :: (showInt v ++ (',' :: ' ' :: '"' :: rest)))))) =
+      members fuel (upd acc k v) (' ' :: '"' :: rest) := by
+  have hsk : skipWs (pre ++ ('"' :: (k ++ ('"' :: ':' :: ' ' :: (showInt v ++ (',' :: ' ' :: '"' :: rest)))))) =
+      '"' :: (k ++ ('"' :: ':' :: ' ' :: (showInt v ++ (',' :: ' ' :: '"' :: rest)))) := by
+    rcases hpre with rfl | rfl <;> simp [skipWs, isWs]
+  have hti : takeInt (showInt v ++ (',' :: ' ' :: '"' :: rest)) = some (v, ',' :: ' ' :: '"' :: rest) :=
+    takeInt_showInt v _ hv (by intro c r h; simp only [List.cons.injEq] at h; obtain ⟨rfl, _⟩ := h; decide)
+  have hkeys : (!(keys.contains k) && (keys.map lower).contains (lower k)) = false := by
+    have : keys.contains k = true := by simpa using hk
+    rw [this]; rfl
+  conv => lhs; unfold members
+  simp only [hsk, takeString_key k hk]
+  simp only [skipWs_colon, skipWs_space, skipWs_showInt, hti, hkeys, skipWs_comma, skipWs_brace, skipWs_quote, skipWs_nil,
+    Bool.false_eq_true, if_false, List.isEmpty_nil, if_true, upd]
+
+/-- the last member, followed by the closing brace -/
+theorem members_last (fuel : Nat) (acc : Acc) (pre k : List Char) (hpre : pre = [] ∨ pre = [' ']) (hk : k ∈ keys)
+    (v : Int) (hv : Small v) :
+    members (fuel + 1) acc (pre ++ ('"' :: (k ++ ('"' :: ':' :: ' ' :: (showInt v ++ ['}']))))) =
+      .ok (upd acc k v).wi (upd acc k v).wd (upd acc k v).m := by
+  have hsk : skipWs (pre ++ ('"' :: (k ++ ('"' :: ':' :: ' ' :: (showInt v ++ ['}']))))) =
+      '"' :: (k ++ ('"' :: ':' :: ' ' :: (showInt v ++ ['}']))) := by
+    rcases hpre with rfl | rfl <;> simp [skipWs, isWs]
+  have hti : takeInt (showInt v ++ ['}']) = some (v, ['}']) :=
+    takeInt_showInt v _ hv (by intro c r h; simp only [List.cons.injEq] at h; obtain ⟨rfl, _⟩ := h; decide)
+  have hkeys : (!(keys.contains k) && (keys.map lower).contains (lower k)) = false := by
+    have : keys.contains k = true := by simpa using hk
+    rw [this]; rfl
+  conv => lhs; unfold members
+  simp only [hsk, takeString_key k hk]
+  simp only [skipWs_colon, skipWs_space, skipWs_showInt, hti, hkeys, skipWs_comma, skipWs_brace, skipWs_quote, skipWs_nil,
+    Bool.false_eq_true, if_false, List.isEmpty_nil, if_true, upd]
+
+
+/-- the documented form of a `weekMonth` value -/
+def wmText (a b c : Int) : List Char :=
+  '{' :: '"' :: ("weekIndex".toList ++ ('"' :: ':' :: ' ' :: (showInt a ++ (',' :: ' ' :: '"' ::
+    ("weekDay".toList ++ ('"' :: ':' :: ' ' :: (showInt b ++ (',' :: ' ' :: '"' ::
+    ("month".toList ++ ('"' :: ':' :: ' ' :: (showInt c ++ ['}'])))))))))))
+
+example : wmText 4 6 12 = "{\"weekIndex\": 4, \"weekDay\": 6, \"month\": 12}".toList := by decide
+
+theorem parse_wmText (a b c : Int) (ha : Small a) (hb : Small b) (hc : Small c) :
+    WM.parse (wmText a b c) = .ok a b c := by
+  obtain ⟨f, hf⟩ : ∃ f, (wmText a b c).length + 1 = f + 3 := ⟨(wmText a b c).length - 2, by simp [wmText]⟩
+  have hbr : ∀ r, skipWs ('{' :: r) = '{' :: r := by intro r; simp [skipWs, isWs]
+  unfold WM.parse
+  rw [hf]
+  simp only [wmText, hbr, skipWs_quote]
+  have h1 := members_mid (f + 2) {} [] "weekIndex".toList (Or.inl rfl) (by decide) a ha
+    ("weekDay".toList ++ ('"' :: ':' :: ' ' :: (showInt b ++ (',' :: ' ' :: '"' ::
+    ("month".toList ++ ('"' :: ':' :: ' ' :: (showInt c ++ ['}'])))))))
+  have h2 := members_mid (f + 1) (upd {} "weekIndex".toList a) [' '] "weekDay".toList (Or.inr rfl) (by decide) b hb
+    ("month".toList ++ ('"' :: ':' :: ' ' :: (showInt c ++ ['}'])))
+  have h3 := members_last f (upd (upd {} "weekIndex".toList a) "weekDay".toList b) [' '] "month".toList (Or.inr rfl) (by decide) c hc
+  simp only [List.nil_append, List.cons_append] at h1 h2 h3
+  change members (f + 2 + 1) {} _ = _
+  rw [h1, h2, h3]
+  simp [upd]
+
+/-- `weekMonth`: the documented object with any three integers (below 10¹⁸ in size) decodes to
+    exactly those three numbers and is accepted iff each is in its range -/
+theorem C08_weekMonth_exact (a b c : Int) (ha : Small a) (hb : Small b) (hc : Small c) :
+    decode "weekMonth" (wmText a b c) = .ok (.weekMonth a b c) ∧
+    (check "weekMonth" (.weekMonth a b c) = .ok true ↔ (0 ≤ a ∧ a ≤ 4 ∧ 0 ≤ b ∧ b ≤ 6 ∧ 0 ≤ c ∧ c ≤ 12)) := by
+  obtain ⟨hd, hck⟩ := decode_eq "weekMonth" "WeekMonth" true (by decide)
+  refine ⟨by rw [hd]; simp [decodeWith, parse_wmText a b c ha hb hc], ?_⟩
+  rw [hck]
+  simp only [checkWith, if_true, Chk.ok.injEq, WM.isValid, Bool.and_eq_true, decide_eq_true_eq]
+  omega
+
+end WeekMonth
 
 end Starcal.Props
